@@ -248,13 +248,13 @@ Proof.
   unfold l_view. rewrite (l_run_frame os d id s E Hall), E. reflexivity.
 Qed.
 
-(* a newly opened layer gets an id that is not live, and shows the filesystem of its own TOC *)
+(* a newly opened layer gets an id that is not live, and shows what a database holding only this layer shows *)
 Lemma l_open_fresh : forall d cands toc c, pick_id d cands 100 = Some c ->
-  l_find c d = None /\ l_view (l_step d (LOpen cands toc)) c = (fun probes => match db_build toc with
-     | Some _ => view_db toc probes | None => l_view [(c, d_init)] c probes end).
+  l_find c d = None /\
+  l_view (l_step d (LOpen cands toc)) c = l_view [(c, match db_build toc with Some s => s | None => d_init end)] c.
 Proof.
   intros d cands toc c H. split; [exact (pick_id_fresh _ _ _ _ H)|].
-  unfold l_step. rewrite H. unfold l_view, view_db.
+  unfold l_step. rewrite H. unfold l_view.
   destruct (db_build toc) as [s|]; simpl; rewrite Z.eqb_refl; reflexivity.
 Qed.
 
